@@ -22,13 +22,13 @@ BASELINE = '2 failed, 1194 passed'
 ONLY = [w for w in os.environ.get('MUT_ONLY', '').split(',') if w]   # keep only mutants whose description contains one of these
 OPS = set(os.environ.get('MUT_OPS', '').split(','))   # extra operators: assign, ifconst
 CHECKS_FOR = {
-    '_wcparse.py': ['C01', 'C02', 'C03', 'C10', 'C08', 'C07', 'C09', 'C17', 'C20', 'C18', 'C05', 'C11', 'C16', 'C19'],
-    'glob.py': ['C05', 'C04', 'C12', 'C13', 'C06', 'C16', 'C03', 'C11', 'C18', 'C10', 'C09'],
-    '_wcmatch.py': ['C04', 'C06', 'C16', 'C19', 'C18', 'C02'],
-    'wcmatch.py': ['C14', 'C15', 'C11', 'C03', 'C18', 'C20'],
-    'pathlib.py': ['C16', 'C11', 'C03', 'C10'],
-    'util.py': ['C20', 'C14', 'C10', 'C18', 'C17', 'C01'],
-    'fnmatch.py': ['C01', 'C11', 'C07', 'C17', 'C09'],
+    '_wcparse.py': ['C01', 'C02', 'C03', 'C10', 'C08', 'C07', 'C09', 'C17', 'C20', 'C18', 'C05', 'C11', 'C16', 'C19', 'C14'],
+    'glob.py': ['C05', 'C04', 'C12', 'C13', 'C06', 'C16', 'C03', 'C11', 'C18', 'C10', 'C09', 'C19', 'C20'],
+    '_wcmatch.py': ['C04', 'C06', 'C16', 'C07', 'C10', 'C19', 'C18', 'C02', 'C12'],
+    'wcmatch.py': ['C14', 'C15', 'C11', 'C03', 'C18', 'C20', 'C10', 'C06'],
+    'pathlib.py': ['C16', 'C13', 'C11', 'C03', 'C10', 'C19'],
+    'util.py': ['C20', 'C14', 'C10', 'C18', 'C17', 'C01', 'C19'],
+    'fnmatch.py': ['C01', 'C11', 'C07', 'C17', 'C09', 'C19', 'C10'],
     'posix.py': ['C01', 'C18'],
 }
 CMP = {ast.Lt: '<=', ast.LtE: '<', ast.Gt: '>=', ast.GtE: '>', ast.Eq: '!=', ast.NotEq: '==', ast.Is: 'is not', ast.IsNot: 'is',
